@@ -1,5 +1,7 @@
-(* Judge for C17.  case = (s obs1 obs2) where obs1 = result of name_cleaner(s) as
-   (0 codepoints) | (1 exn), obs2 = result of name_cleaner(result) (or (1 0) when obs1 failed). *)
+(* Judge for C17.  case = (s obs1 obs2 obs3 v) where obs1 = result of name_cleaner(s) as
+   (0 codepoints) | (1 exn), obs2 = result of name_cleaner(result) (or (1 0) when obs1 failed),
+   obs3 = the $anchor HeadingRowSchemaLoader.header emits for the single heading s, v = 0 when the real
+   2020-12 validator accepts that heading-row schema (1 rejected, 2 the loader raised). *)
 From Coq Require Import ZArith NArith List Bool.
 Import ListNotations.
 Require Import SR.Base.Sx SR.Base.Res SR.Spec.Anchor SR.Model.NameCleaner.
@@ -15,8 +17,17 @@ Definition judge (c : sx) : sx :=
   let s := as_Ns (nth_sx 0 c) in
   let o1 := obs_res (nth_sx 1 c) in
   let o2 := obs_res (nth_sx 2 c) in
+  let o3 := obs_res (nth_sx 3 c) in
+  let valid := Z.eqb (as_Z (nth_sx 4 c)) 0 in
   let m := clean_iters s in
-  let good :=
+  (* a non-empty heading becomes a column whose anchor is legal and whose schema validates; the anchor is the cleaned name *)
+  let good_heading :=
+    match o3 with
+    | Err _ => false
+    | Ok a => (match s with [] => true | _ => legal a && valid end)
+              && (match o1 with Ok r => list_N_eqb a r | Err _ => true end)
+    end in
+  let good0 :=
     match o1 with
     | Err _ => false                                  (* never raises *)
     | Ok r =>
@@ -24,6 +35,7 @@ Definition judge (c : sx) : sx :=
         && (if legal s then list_N_eqb r s else true) (* legal names unchanged *)
         && (match o2 with Ok r2 => list_N_eqb r2 r | Err _ => false end)  (* idempotent *)
     end in
+  let good := good0 && good_heading in
   let agree :=
     match o1, m with
     | Ok r, Some (Ok mr, _) => list_N_eqb r mr
